@@ -98,6 +98,7 @@ def run(rep: core.Report):
     rep.rule("R10c", "no NaN/inf from IEEE-754 evaluation of the expressions as written, over the stated (T, f) box (interval abstract interpretation)", 12)
     rep.rule("R10d", "every mode-selecting predicate in the thermal sums compares with the cutoff-frequency attribute", 5)
     rep.rule("R10e", "normalisation and unit chain identical on the C and Python routes; ZPE added exactly once on the C route", 6)
+    rep.rule("R10g", "compiled kernel, whole reduction: thermal_props[3 t + c] grows by sum over q-points i and bands k of [T_t > 0][f_ik > cutoff] w_i F_c(T_t, f_ik) with F_0, F_1, F_2 = free energy, entropy, heat capacity and f_ik = freqs[i * num_bands + k] (closed form of a generic output cell by element-wise symbolic execution, including the scratch array and the final row reduction)", 3)
     rep.rule("R10f", "T=0 guard: evaluators use the harmonic forms only for t > 0 and ZPE/zero otherwise; C loop has the same guard", 4)
     rep.assume("T > 0, f > 0, Kb > 0 are real (sympy assumptions) for the identities")
 
@@ -144,6 +145,7 @@ def run(rep: core.Report):
     _r10d(rep)
     _r10e(rep)
     _r10f(rep)
+    _r10g(rep)
 
 
 # ---------------------------------------------------------------------------
@@ -409,6 +411,68 @@ def _r10e(rep):
 # ---------------------------------------------------------------------------
 
 
+def _r10g(rep):
+    from engine import celem
+
+    tu = cast.load(CF, openmp=False)
+    ex = celem.ElemExec(tu, where=CF, opaque={"get_free_energy", "get_entropy", "get_heat_capacity"})
+    fn = tu.functions.get("phpy_get_thermal_properties")
+    if fn is None:
+        raise AnalysisError("anchor vanished: phpy_get_thermal_properties")
+    top = cast.kids(cast.body(fn))
+    loops = [x for x in top if x.get("kind") == "ForStmt"]
+    last = loops[-1]
+    st = celem.State(ex, "phpy_get_thermal_properties", {}, {}, 0)
+    for p_ in cast.params(fn):
+        qt = cast.qtype(p_)
+        if "*" in qt or "[" in qt:
+            st.alias[p_["name"]] = p_["name"]
+        else:
+            st.scalars[p_["name"]] = sp.Symbol(p_["name"], integer=True) if cast.is_int_type(qt) else sp.Symbol(p_["name"])
+    st.block([x for x in top if x is not last])
+    # the last nest adds row i of the scratch array to the output: run its innermost statement for the generic output
+    # cell j = 3 t + c (c = 0, 1, 2) under the generic q-point loop
+    nq, nt, nb = sp.Symbol("num_qpoints", integer=True), sp.Symbol("num_temp", integer=True), sp.Symbol("num_bands", integer=True)
+    inner_loops = [x for x in cast.walk(last) if x.get("kind") == "ForStmt"]
+    stmts = [x for x in cast.walk(last) if x.get("kind") == "CompoundAssignOperator"]
+    lims = []
+    for lp in inner_loops:
+        real = [y for y in lp.get("inner", []) if isinstance(y, dict) and y.get("kind")]
+        lims.append((cast.text(cast.kids(real[0])[0]), cast.text(cast.kids(real[0])[1]), cast.text(cast.kids(real[-3])[1]).replace(" ", ""), real[-3].get("opcode")))
+    ok_lims = len(lims) == 2 and lims[0][:2] == ("i", "0") and lims[0][3] == "<" and lims[0][2] == "num_qpoints" and lims[1][:2] == ("j", "0") and lims[1][3] == "<" and sp.expand(sp.sympify(lims[1][2], locals={"num_temp": nt}) - 3 * nt) == 0 and len(stmts) == 1
+    rep.instance("R10g", CF, "phpy_get_thermal_properties", f"row reduction loops {lims}", ok_lims, "the final reduction does not run over all q-points and all 3 * num_temp output cells", line=tu.line(last))
+    if not ok_lims:
+        return
+    t = sp.Symbol("t", integer=True)
+    isym = sp.Symbol("i_r", integer=True)
+    T, F, W = sp.Function("temperatures"), sp.Function("freqs"), sp.Function("weights")
+    k = sp.Symbol("k", integer=True)
+    bad = []
+    funcs = ("get_free_energy", "get_entropy", "get_heat_capacity")
+    for c in range(3):
+        st.scalars["i"] = isym
+        st.scalars["j"] = 3 * t + c
+        st.loopvars.append((isym, sp.Integer(0), nq))
+        try:
+            st.block(stmts)
+        except AnalysisError as ex_:
+            st.loopvars.pop()
+            if "cannot decide whether" in str(ex_):
+                bad.append((c, f"unreadable: the row reduction addresses the scratch array differently from the accumulation ({str(ex_).split('::')[-1][:200]})"))
+                continue
+            raise
+        st.loopvars.pop()
+        got = st.cells["thermal_props"][-1][2]
+        fik = F(isym * nb + k)
+        want = sp.Function("thermal_props")(3 * t + c) + sp.Sum(sp.Function(funcs[c])(T(t), fik, sp.Symbol("classical", integer=True)) * sp.Function("ind_gt")(T(t)) * sp.Function("ind_gt")(fik - sp.Symbol("cutoff_frequency")) * W(isym), (k, 0, nb - 1), (isym, 0, nq - 1))
+        if not celem.same(got, want):
+            bad.append((c, str(got)[:300]))
+    rep.instance("R10g", CF, "phpy_get_thermal_properties", "thermal_props[3 t + c] += sum_i sum_k [T_t > 0][f_ik > cutoff] w_i F_c(T_t, f_ik) for c = 0 (F), 1 (S), 2 (Cv)", not bad,
+                 f"for c = {bad[0][0] if bad else ''} the output cell is {bad[0][1] if bad else ''}: not the weighted sum of the documented mode function over all q-points and bands above the cutoff", line=tu.line(fn))
+    zero = [x for x in loops[:1] if any(y.get("kind") == "BinaryOperator" and y.get("opcode") == "=" and cast.text(cast.kids(y)[0]).startswith("tp[") for y in cast.walk(x))]
+    rep.instance("R10g", CF, "phpy_get_thermal_properties", "the scratch array is zeroed over its whole extent before the accumulation (no uninitialised cell in the closed form)", bool(zero) and not any("uninitialised" in str(v) for _, _, v in st.cells.get("thermal_props", [])), "a cell of the scratch array enters the sum without having been zeroed", line=tu.line(fn))
+
+
 def _r10f(rep):
     want = {
         "run_free_energy": ("mode_F", "mode_ZPE"),
@@ -516,6 +580,8 @@ def selftest():
     b("entropy not scaled to J on the C route", PY, "entropy = props[:, 1] * EvTokJmol * 1000", "entropy = props[:, 1] * EvTokJmol", "R10e", "entropy =")
     n("temperature guard hoisted as an early continue", CF, "        for (j = 0; j < num_temp; j++) {\n            for (k = 0; k < num_bands; k++) {\n                f = freqs[i * num_bands + k];\n                if (temperatures[j] > 0 && f > cutoff_frequency) {", "        for (j = 0; j < num_temp; j++) {\n            if (!(temperatures[j] > 0)) {\n                continue;\n            }\n            for (k = 0; k < num_bands; k++) {\n                f = freqs[i * num_bands + k];\n                if (f > cutoff_frequency) {")
     b("kernel drops high-frequency modes", CF, "                if (temperatures[j] > 0 && f > cutoff_frequency) {", "                if (temperatures[j] > 0 && f > cutoff_frequency && f < 100.0 * KB * temperatures[j]) {", "R10d", "mode filter")
+    b("kernel reduction with row stride 2", CF, "            thermal_props[j] += tp[i * num_temp * 3 + j];", "            thermal_props[j] += tp[i * num_temp * 2 + j];", "R10g", "thermal_props")
+    b("kernel reads the frequency of another band", CF, "                f = freqs[i * num_bands + k];", "                f = freqs[i * num_bands + j];", "R10g", "thermal_props")
     b("kernel guard admits T = 0", CF, "if (temperatures[j] > 0 && f > cutoff_frequency) {", "if (f > cutoff_frequency) {", "R10f", "kernel guard")
     b("kernel entropy column forgets the weight", CF, "                        get_entropy(temperatures[j], f, classical) * weights[i];", "                        get_entropy(temperatures[j], f, classical);", "R10e", "phpy_get_thermal_properties")
     b("kernel columns 1 and 2 swapped", CF, "                        get_entropy(temperatures[j], f, classical) * weights[i];", "                        get_heat_capacity(temperatures[j], f, classical) * weights[i];", "R10e", "phpy_get_thermal_properties")
